@@ -171,8 +171,8 @@ def proj_rat(x, max_den=10000, ulps=4.0):
     x = float(x)
     if math.isnan(x):
         return list(NAN_REC)
-    if math.isinf(x):
-        return list(IRR_REC)
+    if math.isinf(x) or abs(x) > 2.0e5:
+        return list(IRR_REC)          # (the judges' 32-bit rationals cannot hold it; never equal to anything)
     fr = Fraction(x).limit_denominator(max_den)
     if ulp_diff(float(fr), x) <= ulps or abs(float(fr) - x) <= 1e-15:
         return [fr.numerator, fr.denominator]
